@@ -198,7 +198,7 @@ func collectIntConversions(root ast.Node, vars []string, helpers map[string]bool
 func translateConvMode(repo string) (map[string]string, error) {
 	var sb strings.Builder
 	sb.WriteString("(* GENERATED by fit2coq (part convmode) -- do not edit.\n   How each conversion site turns the restored float64 into an integer: Trunc = plain Go conversion,\n   Round = math.Round first. *)\n")
-	sb.WriteString("From Fit Require Import Model.Float.\n\n")
+	sb.WriteString("From Fit Require Import Model.ConvModeT.\n\n")
 	emit := func(name string, a *modeAcc, want int) error {
 		if a.n == 0 {
 			return fmt.Errorf("%s: no integer conversion found", a.site)
